@@ -180,6 +180,38 @@ fn deep_chains(tier: &str) -> Vec<Vec<u8>> {
     outv
 }
 
+/// C13: token sequences of generated items encoded into every sink kind at every capacity 0..=len+1.
+#[cfg(all(feature = "std", feature = "half"))]
+fn gen_c13(sink: &mut Sink, tier: &str, seed: u64) {
+    use crate::cbgen::*;
+    use minicbor::data::Token;
+    let mut rng = StdRng::seed_from_u64(seed ^ 0xc13);
+    let n = if tier == "thorough" { 8000 } else { 1500 };
+    // hand-picked sequences whose last write is empty or which sit exactly on a width boundary
+    let mut fixed: Vec<Vec<u8>> = vec![vec![0x82, 0x62, 0x61, 0x62, 0x60], vec![0x60], vec![0x40], vec![0x81, 0x40], vec![0x5f, 0x40, 0xff],
+        vec![0x00], vec![0x17], vec![0x18, 0x18], vec![0x19, 0x01, 0x00], vec![0xf6], vec![0x80], vec![0xa0]];
+    for i in 0..n {
+        let bytes_in = if let Some(f) = fixed.pop() { f } else {
+            let o = Opts { max_depth: 4, max_nodes: if i % 10 == 0 { 40 } else { 8 }, nonminimal: false, ..Opts::default() };
+            gen_item(&mut rng, &o)
+        };
+        let toks: Vec<Token> = match minicbor::decode::Tokenizer::new(&bytes_in).collect::<Result<Vec<_>, _>>() { Ok(t) => t, Err(_) => continue };
+        let mut reference = Vec::new();
+        if minicbor::Encoder::new(&mut reference).tokens(toks.iter()).is_err() { continue }
+        sink.distinct_inputs += 1;
+        let len = reference.len();
+        for kind in ["slice", "cslice", "carray", "cbox", "vec", "iow"] {
+            let caps: Vec<usize> = if kind == "vec" || kind == "iow" { vec![0] }
+                else if len <= 40 || tier == "thorough" { (0..=len + 1).collect() }
+                else { vec![0, 1, len / 2, len - 1, len, len + 1] };
+            for cap in caps {
+                if kind == "carray" && !crate::sinks::CARRAY_CAPS.contains(&cap) { continue }
+                if let Some(ev) = crate::sinks::encode_event(kind, cap, &toks, &reference) { sink.put(ev) }
+            }
+        }
+    }
+}
+
 /// C15: seeded random walks of the AsyncReader, one file per run.
 #[cfg(feature = "io")]
 fn gen_runs(fam: &str, tier: &str, seed: u64, dir: &str) -> Value {
@@ -214,6 +246,8 @@ pub fn cmd_gen(args: &[String]) -> i32 {
     match fam.as_str() {
         "c05" => gen_c05(&mut sink, tier, seed),
         "c06" => gen_c06(&mut sink, tier, seed),
+        #[cfg(all(feature = "std", feature = "half"))]
+        "c13" => gen_c13(&mut sink, tier, seed),
         _ => { eprintln!("unknown family {}", fam); return 2 }
     }
     println!("{}", sink.finish());
